@@ -729,7 +729,16 @@ class Executor:
         o2 = self.block(node.orelse, s2) if f2 else []
         normals = [o for o in o1 + o2 if o.kind == 'normal']
         others = [o for o in o1 + o2 if o.kind != 'normal']
-        if len(normals) >= 2:
+        # ghost=dict(no_merge=['<source text of the test>', ...]): keep the branches of that `if`
+        # apart (more paths, but no ite-merged container values afterwards)
+        keep_apart = False
+        nm = (ctx.contract.ghost or {}).get('no_merge') if ctx.contract is not None else None
+        if nm:
+            try:
+                keep_apart = ast.unparse(node.test) in nm
+            except Exception:
+                keep_apart = False
+        if len(normals) >= 2 and not keep_apart:
             merged = merge_states([o.state for o in normals], base_len)
             if merged is not None:
                 return [Outcome('normal', merged)] + others
@@ -838,7 +847,8 @@ class Executor:
                                                 or name in DROPPED_CALLS):
                         continue
                     if kind == 'method' and name in ('add', 'append', 'discard', 'remove', 'index',
-                                                     'count', 'get') and isinstance(n.func, ast.Attribute):
+                                                     'count', 'get', 'intersection', 'union',
+                                                     'difference') and isinstance(n.func, ast.Attribute):
                         # a modelled method of a builtin container stores / compares its argument
                         # and never mutates it: no havoc of the argument's root when the receiver
                         # is (rooted in) a list / set / dict known before the loop
@@ -1163,7 +1173,7 @@ class Executor:
             lst.meta = ('tuple_of', [select(v, ('fld', i)) for i in range(len(v.ty[1]))])
             return SeqIter([lst], node, ord_, roots=roots)
         if v.ty == T.OPAQUE and self.ctx.lenient:
-            return OpaqueIter(node, ord_, self.ctx)
+            return OpaqueIter(node, ord_, self.ctx, src=v)
         raise Unsupported(f"iteration over {T.show(v.ty)} at line {node.lineno}")
 
     def seq_source(self, a, state):
@@ -1472,11 +1482,12 @@ class RecKeysIter(SetIter):
 class OpaqueIter:
     """iteration over an abstracted value (slice mode): unknown number of rounds"""
 
-    def __init__(self, node, ord_, ctx=None):
+    def __init__(self, node, ord_, ctx=None, src=None):
         self.node = node
         self.ord = ord_
         self.roots = set()
         self.ctx = ctx
+        self.src = src       # the abstracted container iterated over, when known
 
     def ghost_init(self, state):
         return {}
@@ -1497,6 +1508,10 @@ class OpaqueIter:
                 hint = self.ctx.hint_type(n.id) if self.ctx is not None else None
                 v = fresh(hint or T.OPAQUE, 'it_' + n.id)
                 state.assume(*wf(v))
+                if self.src is not None and v.ty == T.OPAQUE and isinstance(node.target, ast.Name):
+                    # taint ghost: the elements of a sanitised container are sanitised
+                    from . import ghost as _g
+                    state.assume(z3.Implies(_g.SANITIZED(self.src.term), _g.SANITIZED(v.term)))
                 state.bind(n.id, v)
 
     def ghost_step(self, state, body_ghost):
@@ -1618,6 +1633,10 @@ def _merge_states(states, base_len):
                 _MERGE_WHY.append(8)
                 return None
             meta = vals[0].meta if all(v.meta == vals[0].meta for v in vals) else None
+            if T.is_mutable(ty) and _term_size(term, 60) >= 60:
+                named = fresh(ty, 'merged_' + n)
+                out.pc.append(named.term == term)
+                term = named.term
             out.env[n] = out.new_cell(SymVal(ty, term, meta))
         asgs = [s.asg.get(n, z3.BoolVal(False)) for s in states]
         if all(z3.is_true(a) for a in asgs):
